@@ -236,8 +236,10 @@ def case_set_st(draw):
                     for i in range(nv)] + [miss]
         else:
             # binned numeric (zz9): bins numbered 1..n, the missing element comes FIRST
-            cats = [miss] + [{"id": i + 1, "name": None, "missing": False, "value": None,
-                              "evalue": [i * 10, i * 10 + 10]} for i in range(nv)]
+            # (or is absent altogether, e.g. when the rows are grouped by another variable)
+            cats = ([miss] if draw(st.booleans()) else []) + [
+                {"id": i + 1, "name": None, "missing": False, "value": None,
+                 "evalue": [i * 10, i * 10 + 10]} for i in range(nv)]
         answers = draw(st.lists(st.sampled_from([c["id"] for c in cats]), min_size=n,
                                 max_size=n))
         var = {"type": "cat", "flavour": flavour, "alias": "r", "name": "R", "cats": cats,
